@@ -275,3 +275,13 @@ Theorem diagonal_test_exact : forall t n1 a1 a2 offset,
   m_diagonal_mask (DInt t) a1 a2 offset = m_diagonal_mask DInf a1 a2 offset.
 Proof. exact diagonal_test_exact_proof. Qed.
 Print Assumptions diagonal_test_exact.
+
+(* ---- GCXS._reduce_calc: the row numbers of the re-compressed array are made in that array's own indptr
+        dtype (regenerated: s_gcxs_reduce_rows; repaired by 2e026b4 — the operand's dtype may be too narrow),
+        which convert._transpose chose to hold the row count: exact for every index type *)
+Theorem gcxs_reduce_rows_exact : forall t d_self R C nnz,
+  std t -> 0 < R -> 0 < C -> 0 <= nnz -> Z.max (Z.max R C) nnz < 2 ^ 64 ->
+  rmap tv (m_gcxs_reduce_rows (DInt t) d_self R C nnz) = Ok (zrange_ R) /\
+  rmap tv (m_gcxs_reduce_rows (DInt t) d_self R C nnz) = rmap tv (m_gcxs_reduce_rows DInf DInf R C nnz).
+Proof. exact gcxs_reduce_rows_exact_proof. Qed.
+Print Assumptions gcxs_reduce_rows_exact.
